@@ -78,10 +78,21 @@ type VPseudo struct {
 	Rev     int    `json:"rev"`
 }
 
+// VTag: a further tag `<base>/<tag>` of the repository that is NOT a canonical version (short form vX.Y, build metadata
+// vX.Y.Z+meta) but compares equal to a canonical one; it points at revision Rev, where the directory says something
+// else. A requirement is always at a canonical version, so such a tag is never what a requirement names: the universe
+// (model, reference) does not contain it.
+type VTag struct {
+	Base string `json:"base"`
+	Tag  string `json:"tag"`
+	Rev  int    `json:"rev"`
+}
+
 type VUniverse struct {
 	Repo       string         `json:"repo"`
 	Nodes      []VNode        `json:"nodes"`
 	Pseudo     []VPseudo      `json:"pseudo,omitempty"`
+	ExtraTags  []VTag         `json:"extra_tags,omitempty"`
 	Refs       map[string]int `json:"refs"` // branch → revision number (1-based)
 	DefaultRef string         `json:"default_ref"`
 }
@@ -96,6 +107,8 @@ type VCase struct {
 	// Spell: seed of the non-canonical spellings of requirement paths in the dawn.toml files, the root's included
 	// (0 = every path written in its clean form)
 	Spell uint64 `json:"spell,omitempty"`
+	// Legacy: seed of the fetched trees that also ship a `.dawnconfig` with other requirements (0 = none)
+	Legacy uint64 `json:"legacy,omitempty"`
 	// OtherRoots: further root requirement sets resolved over the same universe with the SAME resolver (C10)
 	OtherRoots []map[string]VMod `json:"other_roots,omitempty"`
 }
@@ -225,6 +238,14 @@ type vRepo struct {
 	u     *VUniverse
 	perm  uint64
 	spell uint64
+	// legacy: seed that decides which fetched trees also ship a `.dawnconfig` (with OTHER requirements); 0 = none
+	legacy uint64
+	// failAt: the n-th FetchRevision from now fails once (0 = no fault)
+	failAt atomic.Int64
+	// further injected faults (C11): the n-th dial / tag listing from now fails once; or every one does while the flag is up
+	dialAt, listAt           atomic.Int64
+	dialDown, listDown, down atomic.Bool // down: every fetch fails
+	dials, lists             atomic.Int64
 
 	once     sync.Once
 	versions []*vcs.Version
@@ -236,9 +257,28 @@ func (r *vRepo) Path() string { return r.u.Repo }
 func (r *vRepo) DefaultRef(ctx context.Context) (string, error) { return r.u.DefaultRef, nil }
 
 func (r *vRepo) Versions(ctx context.Context) ([]*vcs.Version, error) {
+	r.lists.Add(1)
+	if r.listDown.Load() || (r.listAt.Load() > 0 && r.listAt.Add(-1) == 0) {
+		return nil, errors.New("injected fault: listing tags failed")
+	}
 	r.once.Do(func() {
 		// NOTE: non-nil even when empty, as in repo_test.go
 		tags := make([]*vcs.Version, 0)
+		// the look-alike tags are listed first: the sort below is stable and they compare equal to their canonical twin
+		for _, t := range r.u.ExtraTags {
+			if !semver.IsValid(t.Tag) {
+				continue
+			}
+			pp := t.Base
+			if pp == "" {
+				pp = "." // path.Clean("") of a tag without a directory prefix, as internal/vcs does
+			}
+			tags = append(tags, &vcs.Version{
+				Version:     module.Version{Path: project.JoinPathVersion(path.Join(r.u.Repo, t.Base), semver.Major(t.Tag)), Version: t.Tag},
+				ProjectPath: pp,
+				RevisionID:  strconv.Itoa(t.Rev),
+			})
+		}
 		for i := range r.u.Nodes {
 			n := &r.u.Nodes[i]
 			if !semver.IsValid(n.Version) {
@@ -246,8 +286,13 @@ func (r *vRepo) Versions(ctx context.Context) ([]*vcs.Version, error) {
 			}
 			tags = append(tags, &vcs.Version{
 				Version:     module.Version{Path: r.u.nodePath(n), Version: n.Version},
-				ProjectPath: n.Base,
-				RevisionID:  strconv.Itoa(i + 1),
+				ProjectPath: func() string {
+					if n.Base == "" {
+						return "."
+					}
+					return n.Base
+				}(),
+				RevisionID: strconv.Itoa(i + 1),
 			})
 		}
 		slices.SortStableFunc(tags, func(a, b *vcs.Version) int {
@@ -304,20 +349,47 @@ func vDeclared(reqs []VMod, perm uint64, salt string) []VMod {
 
 func (r *vRepo) FetchRevision(ctx context.Context, projectPath string, revision vcs.Revision, destDir string) error {
 	rev := revision.(*vRevision)
-	n := r.u.snapshot(rev.n, projectPath)
+	dir := projectPath
+	if dir == "." {
+		dir = ""
+	}
+	n := r.u.snapshot(rev.n, dir)
 	if n == nil {
 		return errors.New("no such project")
 	}
 	r.fetches.Add(1)
+	if r.down.Load() || (r.failAt.Load() > 0 && r.failAt.Add(-1) == 0) {
+		return errors.New("injected fault: connection reset while fetching")
+	}
 	reqs := map[string]project.RequirementConfig{}
 	// the resolver reads the requirements back sorted by name: the names fix the declared order
 	for i, q := range vDeclared(n.Reqs, r.perm, n.Base+"/"+n.Version) {
 		reqs[fmt.Sprintf("r%03d", i)] = project.RequirementConfig{
 			Path: vSpell(q.Path, r.spell, fmt.Sprintf("%s/%s#%d", n.Base, n.Version, i)), Version: q.Version}
 	}
-	projectDir := filepath.Join(destDir, filepath.FromSlash(projectPath))
+	projectDir := filepath.Join(destDir, filepath.FromSlash(dir))
 	if err := os.MkdirAll(projectDir, 0o700); err != nil {
 		return err
+	}
+	if r.legacy != 0 {
+		h := r.legacy
+		for _, c := range []byte(n.Base + "/" + n.Version) {
+			h = h*1099511628211 + uint64(c)
+		}
+		if h%3 != 0 {
+			// the tree also has the legacy file, and it says something else: the requirements of another version
+			// of the repository plus one nobody else has. dawn.toml is the one that counts.
+			other := &r.u.Nodes[int(h/3)%len(r.u.Nodes)]
+			lreqs := map[string]project.RequirementConfig{"legacy": {Path: path.Join(r.u.Repo, "only-in-dawnconfig"), Version: "v1.0.0"}}
+			for i, q := range other.Reqs {
+				if q != (VMod{r.u.nodePath(n), n.Version}) {
+					lreqs[fmt.Sprintf("l%03d", i)] = project.RequirementConfig{Path: q.Path, Version: q.Version}
+				}
+			}
+			if err := project.WriteConfigFile(filepath.Join(projectDir, ".dawnconfig"), &project.Config{Name: "legacy-" + n.Name, Requirements: lreqs}); err != nil {
+				return err
+			}
+		}
 	}
 	return project.WriteConfigFile(filepath.Join(projectDir, "dawn.toml"), &project.Config{
 		Name:         n.Name,
@@ -330,6 +402,10 @@ type vDialer struct{ repos map[string]*vRepo }
 
 func (d vDialer) dialRepository(ctx context.Context, kind, address string) (vcs.Repository, error) {
 	if r, ok := d.repos[address]; ok {
+		r.dials.Add(1)
+		if r.dialDown.Load() || (r.dialAt.Load() > 0 && r.dialAt.Add(-1) == 0) {
+			return nil, errors.New("injected fault: repository unreachable")
+		}
 		return r, nil
 	}
 	return nil, errors.New("unreachable")
@@ -657,6 +733,9 @@ func encUniverse(u *VUniverse, perm uint64, tags []*vcs.Version, extra map[VMod]
 	}
 	var ts []string
 	for _, t := range tags {
+		if semver.Canonical(t.Version.Version) != t.Version.Version {
+			continue // look-alike tags are not versions a requirement can name: not part of the universe
+		}
 		ts = append(ts, encMod(VMod{t.Version.Path, t.Version.Version}))
 	}
 	nodes := "-"
@@ -678,7 +757,7 @@ type vSession struct {
 }
 
 func newSession(c *VCase, perm uint64) *vSession {
-	repo := &vRepo{u: &c.U, perm: perm, spell: c.Spell}
+	repo := &vRepo{u: &c.U, perm: perm, spell: c.Spell, legacy: c.Legacy}
 	return &vSession{c: c, repo: repo, dialer: vDialer{repos: map[string]*vRepo{c.U.Repo: repo}}}
 }
 
@@ -1341,6 +1420,46 @@ func genCase(r *vRng, prop string) *VCase {
 	if r.chance(1, 2) {
 		c.Spell = r.next() | 1
 	}
+	if r.chance(1, 2) {
+		c.Legacy = r.next() | 1
+	}
+	{
+		// look-alike tags: non-canonical spellings of tagged versions, on other revisions; also non-canonical tags that
+		// are NEWER than every canonical one (D30). They are not versions a requirement can name: dawn ignores them, and
+		// the universe (model, reference) does not contain them.
+		if r.chance(1, 2) {
+			for k := 1 + r.below(3); k > 0; k-- {
+				i := r.below(len(u.Nodes))
+				n := &u.Nodes[i]
+				pv, _ := refParse(n.Version)
+				var forms []string
+				forms = append(forms, n.Version+"+build7", n.Version+"+other")
+				if len(pv.pre) == 0 && pv.pat == 0 {
+					forms = append(forms, fmt.Sprintf("v%d.%d", pv.maj, pv.min))
+					if pv.min == 0 {
+						forms = append(forms, fmt.Sprintf("v%d", pv.maj))
+					}
+				}
+				// a revision at which the directory exists and says something else, if there is one
+				rev := 0
+				for try := 0; try < 6 && rev == 0; try++ {
+					cand := 1 + r.below(len(u.Nodes))
+					if sn := u.snapshot(cand, n.Base); sn != nil && cand != i+1 && fmt.Sprint(sn.Reqs) != fmt.Sprint(n.Reqs) {
+						rev = cand
+					}
+				}
+				if rev != 0 {
+					u.ExtraTags = append(u.ExtraTags, VTag{Base: n.Base, Tag: vPick(r, forms), Rev: rev})
+				}
+				if r.chance(1, 2) {
+					// newer than everything tagged in that major: a short form, or build metadata on a version nobody tagged
+					u.ExtraTags = append(u.ExtraTags, VTag{Base: n.Base, Rev: i + 1,
+						Tag: vPick(r, []string{fmt.Sprintf("v%d.%d", pv.maj, pv.min+20), fmt.Sprintf("v%d.%d.%d+build7", pv.maj, pv.min+20, 1)})})
+				}
+			}
+			c.U = u
+		}
+	}
 	if prop == "C10" {
 		c.Ops = []string{"bl"}
 		c.Perm = r.next() | 1
@@ -1378,7 +1497,7 @@ func (o *caseOut) stat(k string) { o.stats[k]++ }
 
 func (o *caseOut) violation(c *VCase, kind, detail string, step int, key string) {
 	in := map[string]any{"universe": c.U, "root": c.Root, "ops": c.Ops, "cache": c.Cache, "perm": c.Perm, "prop": c.Prop,
-		"spell": c.Spell, "other_roots": c.OtherRoots}
+		"spell": c.Spell, "other_roots": c.OtherRoots, "legacy": c.Legacy}
 	v := map[string]any{"prop": c.Prop, "kind": kind, "detail": detail, "step": step, "input": in, "line": o.line}
 	if key != "" {
 		v["mechanism"] = key
@@ -1503,6 +1622,42 @@ func runCase(c *VCase) *caseOut {
 					o.lines = append(o.lines, "C\t"+stream+"\tseq "+encUniverse(&c.U, 0, tags, extraNodes, refs)+" "+encReqs(root)+" bl\t"+a)
 				}
 			}
+		}
+	}
+	if c.Prop == "C10" {
+		// transient fetch failure, then a retry with the SAME resolver: the failed resolution must be an error (never a
+		// shorter list), and the retry — and a fresh resolver over the cache directory the failed run left behind —
+		// must give the reference answer
+		want, ok := g.buildList(rootMods(c.Root))
+		probe := newSession(c, 0)
+		defer probe.close()
+		if dry := runBL(c.Spell, probe.resolver("mem"), c.Root); ok && dry.kind == "ok" && probe.repo.fetches.Load() > 0 {
+			n := probe.repo.fetches.Load()
+			fault := newSession(c, 0)
+			defer fault.close()
+			fault.repo.failAt.Store(1 + int64((c.Perm>>7)%uint64(n)))
+			failed := runBL(c.Spell, fault.resolver("disk"), c.Root)
+			res := fault.resolver("disk") // one resolver for the failing attempt's successor and its retry
+			fault.repo.failAt.Store(1 + int64((c.Perm>>11)%uint64(n)))
+			failed2 := runBL(c.Spell, res, c.Root)
+			if failed.kind == "ok" && !eqBL(failed.bl, want) || failed2.kind == "ok" && !eqBL(failed2.bl, want) {
+				o.violation(c, "bl-fault-swallowed", "a fetch failed and BuildList answered a wrong list instead of an error: "+encBL(failed.bl)+" / "+encBL(failed2.bl)+" reference "+encBL(want), 0, "")
+			}
+			fault.repo.failAt.Store(0)
+			for i, r := range []*Resolver{res, res, fault.resolver("disk")} {
+				retry := runBL(c.Spell, r, c.Root)
+				if retry.kind != "ok" || !eqBL(retry.bl, want) {
+					a := retry.kind
+					if retry.kind == "ok" {
+						a = encBL(retry.bl)
+					}
+					o.violation(c, "bl-retry-after-fault", fmt.Sprintf("retry %d after a failed fetch (first attempts: %s, %s) answered %s, reference %s",
+						i+1, failed.kind, failed2.kind, a, encBL(want)), 0, "")
+					break
+				}
+			}
+			o.stat("bl-fault:" + failed.kind)
+			o.stat("bl-fault:" + failed2.kind)
 		}
 	}
 	return o
@@ -1635,11 +1790,18 @@ func judgeEdit(o *caseOut, c *VCase, s *vSession, g *refGraph, root map[string]V
 		o.violation(c, kindOp+"-"+out.kind, fmt.Sprintf("%s on %s did not return within %v %s", op, encReqs(root), vTimeout, out.msg), step, "")
 		return out.kind, nil
 	}
+	judgeFaults(o, c, g, root, op, out, step)
 	if out.kind != "ok" {
 		return out.kind, nil
 	}
 	next := out.reqs
 	ans := "ok:" + encReqs(next)
+	// what the edit returns is written to dawn.toml by the CLI: dawn must be able to load it again
+	if err := cfgLoads(next); err != nil {
+		o.violation(c, kindOp+"-writes-unloadable-config", fmt.Sprintf("%s on %s returned %s, which project.LoadConfigFile rejects: %v",
+			op, encReqs(root), encReqs(next), err), step, "")
+		return ans, nil
+	}
 
 	before, okB := g.buildList(rootMods(root))
 	after, okA := g.buildList(rootMods(next))
@@ -1802,6 +1964,119 @@ func judgeEdit(o *caseOut, c *VCase, s *vSession, g *refGraph, root map[string]V
 		o.violation(c, kindOp+"-not-idempotent", fmt.Sprintf("%s on %s gave %s; repeated on that it gave %s", op, encReqs(root), encReqs(next), a), step, key)
 	}
 	return ans, next
+}
+
+// write the requirements as the CLI does and load them back
+func cfgLoads(r map[string]VMod) error {
+	out := map[string]project.RequirementConfig{}
+	for n, q := range r {
+		out[n] = project.RequirementConfig{Path: q.Path, Version: q.Version}
+	}
+	f, err := os.CreateTemp(vScratch, "result-*.toml")
+	if err != nil {
+		panic(err)
+	}
+	f.Close()
+	defer os.Remove(f.Name())
+	if err := project.WriteConfigFile(f.Name(), &project.Config{Requirements: out}); err != nil {
+		return err
+	}
+	_, err = project.LoadConfigFile(f.Name())
+	return err
+}
+
+// C11 under injected faults: the repository cannot be dialled / does not list its tags / fails a fetch — once, or for
+// as long as the fault lasts — while an edit runs, over a cold or a warm module cache. The edit must either return an
+// error or return exactly what it returns without the fault (`clean`, itself judged against the model and the
+// reference); it must not touch the requirements it was given; and once the fault is gone the same edit — with the
+// resolver that saw the fault and with a fresh one over the same cache — must give the fault-free result.
+func judgeFaults(o *caseOut, c *VCase, g *refGraph, root map[string]VMod, op string, clean opOut, step int) {
+	kindOp := op
+	if strings.HasPrefix(op, "get:") {
+		kindOp = "get"
+	}
+	show := func(r opOut) string {
+		if r.kind == "ok" {
+			return "ok:" + encReqs(r.reqs)
+		}
+		return r.kind
+	}
+	h := c.Perm ^ c.Spell ^ uint64(step+1)*0x9E3779B97F4A7C15
+	for _, ch := range []byte(op) {
+		h = h*1099511628211 + uint64(ch)
+	}
+	pick := &vRng{h}
+	faults := []string{"dial-once", "list-once", "fetch-once", "dial-down", "list-down", "fetch-down"}
+	for round := 0; round < 2; round++ {
+		fault := faults[pick.below(len(faults))]
+		warm := pick.chance(1, 2)
+		fs := newSession(c, 0)
+		// calibration on a twin session: how many dials / listings / fetches the edit makes
+		twin := newSession(c, 0)
+		if warm {
+			runBL(c.Spell, fs.resolver("disk"), root)
+			runBL(c.Spell, twin.resolver("disk"), root)
+		}
+		d0, l0, f0 := twin.repo.dials.Load(), twin.repo.lists.Load(), twin.repo.fetches.Load()
+		runEdit(c.Spell, twin.resolver("disk"), root, op)
+		nd, nl, nf := twin.repo.dials.Load()-d0, twin.repo.lists.Load()-l0, twin.repo.fetches.Load()-f0
+		twin.close()
+		at := func(n int64) int64 {
+			if n <= 0 {
+				return 1
+			}
+			return 1 + int64(pick.below(int(n)))
+		}
+		switch fault {
+		case "dial-once":
+			fs.repo.dialAt.Store(at(nd))
+		case "list-once":
+			fs.repo.listAt.Store(at(nl))
+		case "fetch-once":
+			fs.repo.failAt.Store(at(nf))
+		case "dial-down":
+			fs.repo.dialDown.Store(true)
+		case "list-down":
+			fs.repo.listDown.Store(true)
+		case "fetch-down":
+			fs.repo.down.Store(true)
+		}
+		cache := "cold"
+		if warm {
+			cache = "warm"
+		}
+		o.stat("fault:" + fault + ":" + cache)
+		res := fs.resolver("disk")
+		given := encReqs(root)
+		faulted := runEdit(c.Spell, res, root, op)
+		o.stat("fault-outcome:" + strings.SplitN(faulted.kind, ":", 2)[0])
+		switch {
+		case faulted.kind == "hang" || faulted.kind == "panic":
+			o.violation(c, kindOp+"-"+faulted.kind+"-under-fault", fmt.Sprintf("%s on %s under %s (%s cache): %s %s", op, given, fault, cache, faulted.kind, faulted.msg), step, "")
+		case faulted.kind == "ok" && show(faulted) != show(clean):
+			o.violation(c, kindOp+"-fault-swallowed", fmt.Sprintf("%s on %s under %s (%s cache) reported success with %s; without the fault it gives %s",
+				op, given, fault, cache, show(faulted), show(clean)), step, "")
+		}
+		if encReqs(root) != given {
+			o.violation(c, kindOp+"-input-modified", fmt.Sprintf("%s under %s changed the requirements it was given: %s became %s", op, fault, given, encReqs(root)), step, "")
+		}
+		// the fault clears
+		fs.repo.dialAt.Store(0)
+		fs.repo.listAt.Store(0)
+		fs.repo.failAt.Store(0)
+		fs.repo.dialDown.Store(false)
+		fs.repo.listDown.Store(false)
+		fs.repo.down.Store(false)
+		for i, r := range []*Resolver{res, fs.resolver("disk")} {
+			again := runEdit(c.Spell, r, root, op)
+			if show(again) != show(clean) && !(strings.HasPrefix(clean.kind, "err") && strings.HasPrefix(again.kind, "err")) {
+				o.violation(c, kindOp+"-after-fault", fmt.Sprintf("%s on %s after %s (%s cache) cleared, %s resolver: %s; without any fault it gives %s",
+					op, given, fault, cache, []string{"same", "fresh"}[i], show(again), show(clean)), step, "")
+				break
+			}
+		}
+		fs.close()
+	}
 }
 
 func queryKind(q string) string {
@@ -1991,11 +2266,26 @@ func directedCases(prop string) []*VCase {
 			out = append(out, &VCase{Prop: prop, Cache: cache, Perm: 5, U: multi, Root: map[string]VMod{"u": {repo, "v1.0.0"}, "tool": {P("tool"), "v1.0.0"}}, Ops: []string{"bl"}})
 		}
 	}
+	if prop == "C10" {
+		// look-alike tags listed before the canonical one, on a revision where the directory says something else:
+		// lib v1.1.0 requires tool; `lib/v1.1.0+build7` and `lib/v1.1` point at revision 2 (lib v1.0.0: no requirements)
+		alike := VUniverse{Repo: repo, DefaultRef: "main", Refs: map[string]int{"main": 5},
+			Nodes: []VNode{{Base: "tool", Version: "v1.0.0"}, {Base: "lib", Version: "v1.0.0"}, {Base: "tool", Version: "v1.2.0"},
+				{Base: "lib", Version: "v1.1.0", Reqs: []VMod{{P("tool"), "v1.2.0"}}},
+				{Base: "app", Version: "v1.0.0", Reqs: []VMod{{P("lib"), "v1.1.0"}, {P("tool"), "v1.0.0"}}}},
+			ExtraTags: []VTag{{Base: "lib", Tag: "v1.1.0+build7", Rev: 2}, {Base: "lib", Tag: "v1.1", Rev: 2}, {Base: "tool", Tag: "v1.2.0+other", Rev: 1}}}
+		for _, cache := range []string{"cold", "mem"} {
+			out = append(out, &VCase{Prop: prop, Cache: cache, Perm: 9, Legacy: 77, U: alike, Root: map[string]VMod{"app": {P("app"), "v1.0.0"}}, Ops: []string{"bl"}})
+		}
+	}
 	// every second directed case writes its dawn.toml files with non-canonical spellings of the requirement paths;
 	// the C10 ones also resolve a second root with the same resolver
 	for i, c := range out {
 		if i%2 == 1 {
 			c.Spell = 0x5eed + uint64(i)
+		}
+		if i%3 != 0 && c.Legacy == 0 {
+			c.Legacy = 0x1e9ac7 + uint64(i)
 		}
 		if prop == "C10" && len(c.U.Nodes) > 0 {
 			n := &c.U.Nodes[0]
@@ -2090,7 +2380,7 @@ func VerifMain(args []string) int {
 	if *tier == "thorough" {
 		maxCases = 120000
 	}
-	batch := 64
+	batch := 32
 	for done := 0; done < maxCases && time.Since(start) < *budget && vHangs.Load() < vMaxHangs; done += batch {
 		cs := make([]*VCase, batch)
 		for i := range cs {
